@@ -21,6 +21,15 @@ impl WordId {
 //@  before let dic_part =
         proof { lemma_wid_pack(dic, word); }
 //@end
+//@extract sudachi/src/dic/word_id.rs :: impl WordId :: fn checked
+//@  ret r
+//@  specfile specs/wid/checked.contract
+//@  atstart
+        proof {
+            assert(dic & !0xfu8 != 0 <==> dic > 0xfu8) by (bit_vector);
+            assert(word & !0x0fff_ffffu32 != 0 <==> word > 0x0fff_ffffu32) by (bit_vector);
+        }
+//@end
 //@extract sudachi/src/dic/word_id.rs :: impl WordId :: fn oov
 //@  ret r
 //@  specfile specs/wid/oov.contract
